@@ -20,7 +20,7 @@ RULE = ("(a) every command class is constructed over comm 0..255, counts 1..125,
         "command class, argument class) tuples + distinct transaction ids seen")
 ASSUMPTIONS = ["the decoders in refcodec follow the Modbus specification (big-endian fields, CRC lo-hi, MBAP length = bytes "
                "that follow) and the AA55 framing stated in the property"]
-MUST = ["connect_with_family_and_comm_addr", "clock_writes_checked", "named_reads_of_calculated_ids", "answers_with_foreign_transaction_id", "dt_export_limit_by_model_line", "es_setter_sequences_decoded", "auto_detected_object_frames", "aa55_over_both_transports", "overlapping_polls_txids", "rmw_with_padded_read_answers", "named_single_reads", "dt_fallback_model_query", "tcp_connect_failures_between_requests", "tcp_session_dropped_between_requests", "contract_eval_create_modbus_rtu_request", "contract_eval_create_modbus_tcp_request",
+MUST = ["connect_with_family_and_comm_addr", "clock_writes_checked", "named_reads_of_calculated_ids", "answers_with_foreign_transaction_id", "dt_export_limit_by_model_line", "es_setter_sequences_decoded", "auto_detected_object_frames", "aa55_over_both_transports", "overlapping_polls_txids", "rmw_with_padded_read_answers", "named_single_reads", "dt_fallback_model_query", "tcp_connect_failures_between_requests", "tcp_session_dropped_between_requests", "tcp_session_dropped_after_every_request", "contract_eval_create_modbus_rtu_request", "contract_eval_create_modbus_tcp_request",
         "contract_eval_create_modbus_rtu_multi_request", "contract_eval_create_modbus_tcp_multi_request",
         "txid_wraps", "negative_values", "aa55_negative_values", "wire_ops_matched", "wire_retransmissions",
         "classes_constructed", "protocol_object_commands"]
@@ -227,7 +227,11 @@ def wire_ops(spec, part):
             else:
                 v = rnd.randrange(-32768, 32768)
                 steps.append(["wsetting", reg, v]); ops.append(("write", reg, v))
-        if transport == "tcp" and rnd.random() < 0.4:       # the peer closes the session between two requests
+        every_time = transport == "tcp" and i % 10 == 3
+        if every_time:           # ... after EVERY request (a gateway that serves one request per session)
+            steps = [x for st_ in steps for x in (st_, ["peerdrop"])]
+            part.count("tcp_session_dropped_after_every_request")
+        elif transport == "tcp" and rnd.random() < 0.4:       # the peer closes the session between two requests
             j = rnd.randrange(1, len(steps) + 1)
             steps.insert(j, ["peerdrop"])
             part.count("tcp_session_dropped_between_requests")
@@ -248,6 +252,8 @@ def wire_ops(spec, part):
         sc = {"transport": transport, "framing": framing, "keep_alive": rnd.random() < 0.6, "T": 1, "R": 3,
               "comm": rnd.choice((0, 0x11, 0xF7, 0xFE)), "family": rnd.choice(("ET", "DT")),
               "tasks": [{"start": 0.0, "steps": steps}]}
+        if every_time:
+            sc["keep_alive"] = i % 20 == 3
         if transport == "tcp" and rnd.random() < 0.5:     # some connection attempts fail before anything is sent
             sc["connect"] = [rnd.choice(("ok", "refused", "ok", "timeout", "unreach")) for _ in range(16)]
             sc["keep_alive"] = rnd.random() < 0.3
